@@ -382,6 +382,81 @@ def check_atheris(case: t.Any, ctx: Ctx) -> None:
 ATHERIS_BUDGET = 240.0
 
 
+# ---- user hooks that raise: every kind of exception, every hook, every data path ------------------------------------------------------
+#
+# "user predicates or validation hooks that raise": __post_init__, a default factory, a Condition's predicate, a field converter's
+# constructor.  Whatever they raise (ValueError or the AttributeError of a slip in the hook itself) comes out of the data paths as
+# ConvertError; hooks are not code pane may let fall through.
+
+HOOK_EXC = ['ValueError', 'AttributeError', 'NameError', 'KeyError', 'LookupError', 'TypeError', 'StopIteration', 'ZeroDivisionError', 'Custom']
+HOOKS = ['post_init', 'default_factory', 'predicate']
+_HK: t.Dict[t.Any, t.Any] = {}
+
+
+class _CustomHookError(Exception):
+    pass
+
+
+def hook_cases(shard: int, nshards: int) -> t.Iterator[t.Any]:
+    i = 0
+    for hook in HOOKS:
+        for exc in HOOK_EXC:
+            for layout in ('mapping', 'sequence'):
+                for where in ('bare', 'List', 'Union', 'json'):
+                    if i % nshards == shard:
+                        yield [hook, exc, layout, where]
+                    i += 1
+
+
+def check_hooks(case: t.Any, ctx: Ctx) -> None:
+    import json
+    import pane
+    from pane.annotations import Condition
+    (hook, excn, layout, where) = case
+    E = _CustomHookError if excn == 'Custom' else getattr(__builtins__, excn, None) or __builtins__[excn]     # type: ignore
+    key = (hook, excn)
+    if key not in _HK:
+        state = {'armed': False}
+
+        def boom(*a: t.Any) -> t.Any:
+            if state['armed']:
+                raise E('raised by a user hook')
+            return 0 if hook == 'default_factory' else True
+        ns: t.Dict[str, t.Any] = {'__annotations__': {'name': str, 'n': int}}
+        if hook == 'post_init':
+            ns['n'] = 0
+            ns['__post_init__'] = lambda self: boom()
+        elif hook == 'default_factory':
+            ns['n'] = pane.field(default_factory=boom)
+        else:
+            ns['__annotations__'] = {'name': str, 'n': t.Annotated[int, Condition(boom, 'user predicate')]}
+            ns['n'] = 0
+        _HK[key] = (type('Hooked', (pane.PaneBase,), ns, in_format=('struct', 'tuple')), state)
+    (Cls, state) = _HK[key]
+    state['armed'] = True
+    data: t.Any = ({'name': 'a'} if hook == 'default_factory' else {'name': 'a', 'n': 1}) if layout == 'mapping' else (['a'] if hook == 'default_factory' else ['a', 1])
+    ctx.label(f"hook:{hook}", f"raises:{excn}", layout, where)
+    ctx.nontrivial(True)
+    calls = {
+        'bare': [('from_data', lambda: pane.from_data(data, Cls)), ('Cls.from_data', lambda: Cls.from_data(data)), ('convert', lambda: pane.convert(data, Cls))],
+        'List': [('from_data(List[Cls])', lambda: pane.from_data([data], t.List[Cls]))],
+        'Union': [('from_data(Union[Cls, None])', lambda: pane.from_data(data, t.Optional[Cls])), ('from_data(Union[Cls, str])', lambda: pane.from_data(data, t.Union[Cls, str]))],
+        'json': [('Cls.from_jsons', lambda: Cls.from_jsons(json.dumps(data))), ('Cls.from_yamls', lambda: Cls.from_yamls(json.dumps(data)))],
+    }[where]
+    for (what, f) in calls:
+        ctx.evaluated()
+        try:
+            f()
+            got: t.Any = None
+        except pane.ConvertError:
+            continue
+        except BaseException as e:      # noqa: B036
+            got = e
+        ctx.fail(f"escape:{what.split('(')[0]}", f"hook-{hook}:{type(got).__name__ if got is not None else 'accepted'}", f"class Hooked with a {hook} that raises {excn}, {layout} data {data!r}: {what} "
+                 f"{'returned a value' if got is None else 'let ' + type(got).__name__ + ' out: ' + str(got)[:100]} (want ConvertError)")
+        return
+
+
 def suites(tier: str) -> t.List[Suite]:
     big = tier == 'thorough'
     leaves = 8 if big else 4
@@ -390,5 +465,6 @@ def suites(tier: str) -> t.List[Suite]:
         Suite('escape', check_escape, strategy=lambda: gen.conv_cases(gen.all_type_specs(leaves)), examples=6000 if big else 500,
               budget_s=480 if big else 40, render=gen.render_case),
         *([Suite('atheris', check_atheris, cases=atheris_cases, budget_s=ATHERIS_BUDGET + 200)] if big else []),
+        Suite('raising-hooks', check_hooks, cases=hook_cases, exhaustive=True, budget_s=60, render=lambda c: {'hook': c[0], 'raises': c[1], 'layout': c[2], 'where': c[3]}),
         Suite('unsupported', check_unsupported, cases=unsupported_cases, budget_s=120),
     ]
